@@ -826,7 +826,12 @@ where
                     Ok(Some(Ev::Scalar { value, style, .. }))
                         if scalar_is_nullish(value, style) =>
                     {
-                        let _ = self.src.next();
+                        // Consume the null document; an error at this point (an I/O fault, the
+                        // input size cap) ends the iteration and must be reported.
+                        if let Err(e) = self.src.next() {
+                            self.finished = true;
+                            return Some(Err(e));
+                        }
                         continue;
                     }
                     Ok(Some(_)) => {
@@ -1202,7 +1207,12 @@ where
                     Ok(Some(Ev::Scalar { value, style, .. }))
                         if scalar_is_nullish(value, style) =>
                     {
-                        let _ = self.src.next();
+                        // Consume the null document; an error at this point (an I/O fault, the
+                        // input size cap) ends the iteration and must be reported.
+                        if let Err(e) = self.src.next() {
+                            self.finished = true;
+                            return Some(Err(e));
+                        }
                         continue;
                     }
                     Ok(Some(_)) => {
@@ -1932,7 +1942,12 @@ where
                     Ok(Some(Ev::Scalar { value, style, .. }))
                         if scalar_is_nullish(value, style) =>
                     {
-                        let _ = self.src.next();
+                        // Consume the null document; an error at this point (an I/O fault, the
+                        // input size cap) ends the iteration and must be reported.
+                        if let Err(e) = self.src.next() {
+                            self.finished = true;
+                            return Some(Err(e));
+                        }
                         continue;
                     }
                     Ok(Some(_)) => {
